@@ -203,6 +203,78 @@ def make_direct(n, p):
     return hs
 
 
+# ---------------------------------------------------------------------------------- adapters over the built-in costs
+
+def make_builtin(kind, mode, n, p):
+    """The three adapters around a *built-in* cost in every parameter mode (scalar and per-column fixed
+    parameters are solver variables, so 'some component is zero' is a point of the space): the adapter's
+    output must be the defining difference of that cost's own `evaluate` values on the same data (what the
+    cost's values are is C01's business).  Found necessary by seed C06-c: a closed-form shortcut taken for
+    the wrong set of fixed means is invisible to table costs."""
+    from .c01 import _cost, _min_size
+    X = sym_matrix(n, p)
+    ms = _min_size(kind, p)
+    info = dict(n=n, p=p, part="builtin", kind=kind, mode=mode)
+    _, base, _ = _cost(kind, mode, p)
+
+    def harness(c3, c2s, c4, label):
+        """c3 / c2s / c4: the batches handed to ChangeScore / Saving / LocalAnomalyScore in this harness"""
+
+        def run(eng, acc):
+            from skchange.anomaly_scores import LocalAnomalyScore, Saving
+            from skchange.change_scores import ChangeScore
+            mk = lambda: _cost(kind, mode, p)[0]
+            mk_opt = lambda: _cost(kind, "optim", p)[0]
+            need = set(c2s)
+            for (s, k, e) in c3:
+                need |= {(s, e), (s, k), (k, e)}
+            for (s, a, b, e) in c4:
+                need |= {(s, e), (a, b)}
+            c2 = sorted(need)
+            with proxy.settings(exact=True):
+                try:
+                    own = mk().fit(X).evaluate(np.array(c2))
+                    val = {c: own[i] for i, c in enumerate(c2)}
+                    q = own.shape[1]
+                    if c3:
+                        got = ChangeScore(mk()).fit(X).evaluate(np.array(c3))
+                        acc.concrete("builtin.change_score.shape", tuple(got.shape) == (len(c3), q), dict(info, shape=tuple(got.shape)))
+                        for i, (s, k, e) in enumerate(c3):
+                            for j in range(q):
+                                want = rv(val[(s, e)][j]) - rv(val[(s, k)][j]) - rv(val[(k, e)][j])
+                                acc.oblige(eng, "builtin.change_score.is_cost_difference", rv(got[i, j]) == want, dict(info, cut=(s, k, e), col=j, batch=len(c3)))
+                    if mode != "optim" and c2s:
+                        opt = mk_opt().fit(X).evaluate(np.array(c2s))
+                        got = Saving(mk()).fit(X).evaluate(np.array(c2s))
+                        acc.concrete("builtin.saving.shape", tuple(got.shape) == (len(c2s), q), dict(info, shape=tuple(got.shape)))
+                        for i, c in enumerate(c2s):
+                            for j in range(q):
+                                acc.oblige(eng, "builtin.saving.is_fixed_minus_optimal", rv(got[i, j]) == rv(val[c][j]) - rv(opt[i, j]), dict(info, cut=c, col=j, batch=len(c2s)))
+                    if c4:
+                        got = LocalAnomalyScore(mk()).fit(X).evaluate(np.array(c4))
+                        for i, (s, a, b, e) in enumerate(c4):
+                            pooled = np.concatenate((X[s:a], X[b:e]))
+                            pv = mk().fit(pooled).evaluate(np.array([[0, len(pooled)]]))
+                            for j in range(q):
+                                want = rv(val[(s, e)][j]) - rv(val[(a, b)][j]) - rv(pv[0, j])
+                                acc.oblige(eng, "builtin.local_score.is_outer_minus_inner_minus_pooled", rv(got[i, j]) == want, dict(info, cut=(s, a, b, e), col=j, batch=len(c4)))
+                except RuntimeError:
+                    acc.inc("not_pd_paths")
+                    return
+            acc.sample(dict(info, batch=label))
+
+        return Harness(run, base, sliced=True, timeout_ms=20000, name=f"builtin {info} {label}")
+
+    all2 = [(s, e) for s in range(n) for e in range(s + ms, n + 1)]
+    all3, all4 = cuts3(n, ms), cuts4(n, ms)
+    if kind == "l2":
+        return [harness(all3, all2, all4, "all cuts in one batch")]     # no data-dependent branching: the full batches
+    # the Gaussian costs branch per interval (variance floor / definiteness): one harness per cut keeps the paths apart
+    hs = [harness([c], [], [], f"cut {c}") for c in all3]
+    hs += [harness([], [c], [], f"cut {c}") for c in all2] if mode != "optim" else []
+    hs += [harness([], [], [c], f"cut {c}") for c in all4]
+    return hs
+
 # ---------------------------------------------------------------------------------- Gaussian inequalities
 
 def _var(X, s, e, j):
@@ -318,7 +390,79 @@ def jobs(tier):
     for n in gc:
         out.append(Job(M, "make_gauss", dict(n=n, kind="gcov")))
     out.append(Job(M, "make_vacuity", dict(n=4)))
+    # adapters over the built-in costs, every parameter mode, symbolic data and symbolic fixed parameters
+    if tier == "quick":
+        bi = [("l2", "optim", 4, 2), ("l2", "fixed_scalar", 4, 2), ("l2", "fixed_percol", 4, 2), ("l2", "fixed_percol", 3, 3),
+              ("gvar", "optim", 4, 1), ("gvar", "fixed_scalar", 4, 1), ("gvar", "fixed_percol", 4, 2)]
+    else:
+        bi = [("l2", m, n, p_) for m in ("optim", "fixed_scalar", "fixed_percol") for (n, p_) in ((4, 2), (5, 2), (4, 3)) if not (m == "fixed_percol" and p_ == 1)]
+        bi += [("gvar", "optim", 4, 1), ("gvar", "optim", 4, 2), ("gvar", "fixed_scalar", 5, 1), ("gvar", "fixed_percol", 4, 2), ("gvar", "fixed_percol", 5, 2),
+               ("gcov", "fixed_scalar", 4, 1), ("gcov", "fixed_sym", 4, 2)]
+    for (kind, mode, n, p_) in bi:
+        out.append(Job(M, "make_builtin", dict(kind=kind, mode=mode, n=n, p=p_)))
     return out
+
+
+def _replay_builtin(info, env, Xf, ob, key):
+    """Native re-run of the same batches; the reference is the cost's own evaluate on the same data.  When the
+    model's point does not separate the two (z3's model of the uninterpreted log), a few deterministic data /
+    parameter points are tried as well: a reproduced violation needs one concrete failing input, any one."""
+    from skchange.anomaly_scores import LocalAnomalyScore, Saving
+    from skchange.change_scores import ChangeScore
+    from .c01 import _min_size, _native_cost
+    kind, mode, n, p = info["kind"], info["mode"], info["n"], info["p"]
+    ms = _min_size(kind, p)
+    rng = np.random.default_rng(11)
+    tries = [(Xf, env)]
+    for t in range(6):
+        e2 = dict(env)
+        for j in range(p):
+            e2[f"mu_{j}"] = float(rng.integers(-3, 4)) if (t + j) % 3 else 0.0
+            e2[f"var_{j}"] = float(rng.integers(1, 5)) / 2
+        e2["mu"], e2["var"], e2["cv"] = float(rng.integers(-3, 4)), float(rng.integers(1, 5)) / 2, 1.5
+        for a in range(p):
+            for b in range(a, p):
+                e2[f"s_{a}_{b}"] = 2.0 if a == b else 0.5
+        tries.append((rng.integers(-8, 9, size=(n, p)) / 2.0, e2))
+    bad = []
+    with proxy.native():
+        for X, e_ in tries:
+            mk = lambda: _native_cost(kind, mode, p, e_)
+            try:
+                c2 = [(s, e) for s in range(n) for e in range(s + ms, n + 1)]
+                own = mk().fit(X).evaluate(np.array(c2))
+                val = {c: own[i] for i, c in enumerate(c2)}
+                if "change_score" in ob:
+                    c3 = cuts3(n, ms)
+                    got = ChangeScore(mk()).fit(X).evaluate(np.array(c3))
+                    for i, (s, k, e) in enumerate(c3):
+                        want = val[(s, e)] - val[(s, k)] - val[(k, e)]
+                        if tuple(got.shape) != (len(c3), own.shape[1]) or not np.allclose(got[i], want, rtol=1e-7, atol=1e-8):
+                            bad.append(f"ChangeScore({type(mk()).__name__}, {mode}).evaluate(batch) row {(s, k, e)} = {got[i].tolist()} but C(s,e)-C(s,k)-C(k,e) = {want.tolist()}")
+                            break
+                elif "saving" in ob:
+                    opt = _native_cost(kind, "optim", p, e_).fit(X).evaluate(np.array(c2))
+                    got = Saving(mk()).fit(X).evaluate(np.array(c2))
+                    for i, c in enumerate(c2):
+                        want = own[i] - opt[i]
+                        if tuple(got.shape) != own.shape or not np.allclose(got[i], want, rtol=1e-7, atol=1e-8):
+                            bad.append(f"Saving({type(mk()).__name__}, {mode}).evaluate(batch) row {c} = {got[i].tolist()} but C_fixed - C_optimal = {want.tolist()}")
+                            break
+                else:
+                    c4 = cuts4(n, ms)
+                    got = LocalAnomalyScore(mk()).fit(X).evaluate(np.array(c4))
+                    for i, (s, a, b, e) in enumerate(c4):
+                        pooled = np.concatenate((X[s:a], X[b:e]))
+                        want = val[(s, e)] - val[(a, b)] - mk().fit(pooled).evaluate(np.array([[0, len(pooled)]]))[0]
+                        if not np.allclose(got[i], want, rtol=1e-7, atol=1e-8):
+                            bad.append(f"LocalAnomalyScore({type(mk()).__name__}, {mode}).evaluate(batch) row {(s, a, b, e)} = {got[i].tolist()} but outer-inner-pooled = {want.tolist()}")
+                            break
+            except RuntimeError:
+                continue
+            if bad:
+                pars = {k: v for k, v in e_.items() if k.startswith(("mu", "var", "cv", "s_"))}
+                return dict(reproduced=True, key=key + "|" + kind + "|" + mode, what=(bad[0] + f" [X={np.asarray(X).tolist()}, params={pars}]")[:800])
+    return dict(reproduced=False, key=key, what="adapter output equals the cost difference natively at the model point and at 6 further points")
 
 
 def replay(cx):
@@ -384,6 +528,8 @@ def replay(cx):
         return dict(reproduced=bool(bad), key=key, what="; ".join(bad)[:700])
     Xf = np.array([[env.get(f"x_{i}_{j}", 0.0) for j in range(p)] for i in range(n)])
     cut = info.get("cut")
+    if info.get("part") == "builtin":
+        return _replay_builtin(info, env, Xf, ob, key)
     r = lambda A: ((A - A.mean(axis=0)) ** 2).sum(axis=0)
     with proxy.native():
         if ob.startswith("cusum") or ob.startswith("l2_change_score"):
